@@ -451,6 +451,9 @@ def pin_opaque_widths():
     _PINNED = True
 
 
+NORMALISE_HOOKS: List[Callable[[], None]] = []   # c04.py registers the restoration of mutated import-only inventory objects here
+
+
 def normalise_process_state():
     """Both runs of a differential start from the same process-global state (what a fresh interpreter would have, with a fixed seed):
     otherwise the leftovers of the previous run would be mistaken for an effect of the other instance."""
@@ -469,6 +472,8 @@ def normalise_process_state():
     if NICObservation.capture_nmne is not orig["capture_nmne"]:
         NICObservation.capture_nmne = orig["capture_nmne"]
     PacketCapture.clear()
+    for hook in NORMALISE_HOOKS:
+        hook()
 
 
 def run_schedule(cfg_a: Dict, cfg_b: Optional[Dict], schedule: List[Tuple], shield: Optional[Tuple[bool, bool]] = None,
@@ -763,8 +768,8 @@ def reachable(root: Any, limit: int = 2_000_000) -> Dict[int, Any]:
     return seen
 
 
-def import_time_objects() -> Dict[int, Any]:
-    """objects reachable from class-level / module-level tables of the loaded primaite modules (the import-only globals)."""
+def import_time_roots() -> List[Tuple[str, Any]]:
+    """(label, object) of the class-level / module-level tables and objects of the loaded primaite modules (the import-only globals)"""
     import sys
 
     def objlike(v) -> bool:
@@ -780,7 +785,7 @@ def import_time_objects() -> Dict[int, Any]:
             continue
         for k, v in list(vars(mod).items()):
             if objlike(v):
-                roots.append(v)
+                roots.append((f"{name}.{k}", v))
             if isinstance(v, type) and getattr(v, "__module__", "").startswith("primaite"):
                 for ck, cv in list(vars(v).items()):
                     # dunder attributes are interpreter / pydantic internals. NB `__pydantic_parent_namespace__` strongly holds
@@ -789,13 +794,69 @@ def import_time_objects() -> Dict[int, Any]:
                     if ck.startswith("__"):
                         continue
                     if objlike(cv):
-                        roots.append(cv)
+                        roots.append((f"{v.__module__}.{v.__qualname__}.{ck}", cv))
+    return roots
+
+
+def import_time_objects() -> Dict[int, Any]:
+    """objects reachable from class-level / module-level tables of the loaded primaite modules (the import-only globals)."""
     out: Dict[int, Any] = {}
-    for r in roots:
+    for _, r in import_time_roots():
         try:
             out.update(reachable(r, limit=200_000))
         except Exception:
             pass
+    return out
+
+
+def name_import_time_object(oid: int) -> str:
+    """the module / class attribute through which the object with this id is reachable"""
+    for label, r in import_time_roots():
+        try:
+            if oid in reachable(r, limit=200_000):
+                return label
+        except Exception:
+            pass
+    return "?"
+
+
+def stray_import_time_objects(game: Any, allowed: Dict[int, Any]) -> List[Tuple[str, str]]:
+    """(type, module-level name) of every mutable import-time object that the game's object graph references, the AirSpaceFrequency
+    constants (never mutated: frequency table entries) excepted: an object handed out from module / class level to a caller that may
+    fill it in is shared by every episode and every environment of the process"""
+    from primaite.simulator.network.airspace import AirSpaceFrequency
+    freq = reachable(AirSpaceFrequency._registry)
+    g = reachable(game)
+    out = {}
+    for i, o in g.items():
+        if i in allowed and i not in freq:
+            out[i] = f"{type(o).__module__}.{type(o).__qualname__}"
+    # report the outermost objects only (a shared model drags its dict / set attributes along)
+    inner = set()
+    for i in out:
+        for j in reachable(g[i], limit=10_000):
+            if j != i:
+                inner.add(j)
+    return sorted((t, name_import_time_object(i)) for i, t in out.items() if i not in inner)
+
+
+def shared_between_history_items(env) -> List[str]:
+    """mutable objects (the response, its data, responses nested in it) that two DIFFERENT history items of the environment's agents have
+    in common: every item must own the answer it records, or a later write through one answer rewrites the other. (`parameters` are, by
+    design, the entry of the agent's own action map and are not looked at.)"""
+    owner: Dict[int, str] = {}
+    out = []
+    for name, ag in env.game.agents.items():
+        for k, it in enumerate(ag.history):
+            objs = {}
+            part = getattr(it, "response", None)
+            if part is not None:
+                objs.update(reachable(part, limit=2000))
+            for i, o in objs.items():
+                me = f"{name}#{k}"
+                if i in owner and owner[i] != me:
+                    out.append(f"{type(o).__module__}.{type(o).__qualname__} shared by history items {owner[i]} and {me}")
+                owner.setdefault(i, me)
     return out
 
 
